@@ -893,11 +893,26 @@ func runSettle(s *syncSUT, d time.Duration) (ended int, ok bool) {
 		ended = runLog.count(runEndedPred)
 		if s.cl.active.Load() == 0 && len(s.sm.VerifSyncedChan()) == 0 &&
 			(ended == runStarts || (ended == runStarts-1 && s.cl.parked.Load() >= 1)) {
+			// Run has RECEIVED every beacon reported, but may not have executed `lastRoundTime = s.clock.Now()` yet: were the
+			// fake clock advanced now, that beacon would be stamped with the later time (an artefact of a jumping clock).
+			// Run is one goroutine: once it has answered a sentinel request sent now, the beacon arm is behind it.
+			if !runBarrier(s, time.Until(deadline)) {
+				return ended, false
+			}
 			return ended, true
 		}
 		time.Sleep(200 * time.Microsecond)
 	}
 	return ended, false
+}
+
+// runBarrier returns once Run has gone through its loop after everything it had received before the call.
+func runBarrier(s *syncSUT, d time.Duration) bool {
+	mark := runLog.len()
+	s.sm.SendSyncRequest(context.Background(), 1, nil) // always "already filled", changes nothing
+	return runLog.waitFor(mark, func(l string) bool {
+		return strings.Contains(l, "skipping_request") && (strings.Contains(l, `"request":1}`) || strings.Contains(l, `"request":1,`))
+	}, d) >= 0
 }
 
 func syncEngine(args []string, in *bufio.Scanner, out *bufio.Writer) {
